@@ -338,7 +338,37 @@ func genText(t *rapid.T) TextCase {
 			idx = ri + 1
 		}
 		tc := TextCase{Kind: "mutated"}
-		switch rapid.IntRange(0, 5).Draw(t, "mutation") {
+		switch rapid.IntRange(0, 6).Draw(t, "mutation") {
+		case 6:
+			// the member is deleted but its exact name still occurs in the text as data
+			name := ms[idx].Name
+			tc.Mutation = "delete-alias:" + name
+			ms = append(ms[:idx:idx], ms[idx+1:]...)
+			switch rapid.IntRange(0, 3).Draw(t, "aliasWhere") {
+			case 0:
+				for i := range ms {
+					if ms[i].Name == "reqUser" || (name == "reqUser" && ms[i].Name == "reqHost") {
+						ms[i].Raw = jstr(name)
+						break
+					}
+				}
+			case 1:
+				for i := range ms {
+					if ms[i].Name == "prins" || (name == "prins" && ms[i].Name == "transID") {
+						if ms[i].Name == "prins" {
+							ms[i].Raw = "[" + jstr(name) + "]"
+						} else {
+							ms[i].Raw = jstr(name)
+						}
+						break
+					}
+				}
+			case 2:
+				ms = append(ms, member{"extra", "{" + jstr(name) + ":" + rapid.SampledFrom(retypes).Draw(t, "aliasVal") + "}"})
+			default:
+				ms = append(ms, member{"note", jstr("the field " + jstr(name) + " was removed")})
+			}
+			tc.MustFail = true
 		case 0:
 			tc.Mutation = "delete:" + ms[idx].Name
 			ms = append(ms[:idx:idx], ms[idx+1:]...)
@@ -481,7 +511,7 @@ func execText(c TextCase) (vh.Outcome, error) {
 func TestC05Text(t *testing.T) {
 	vh.Run(t, vh.Spec[TextCase]{
 		Property: "C05", Name: "TestC05Text",
-		Rule: "texts: 20% valid-by-construction (shuffled members, extra members, whitespace; must decode to the members' values), 50% encoder-shaped text with one required member deleted / case-renamed / duplicated (same, conflicting, case variant) / retyped, 10% inconsistent-or-unsupported attribute sets, 10% other JSON values, 10% arbitrary bytes. Oracle on acceptance: version supported, all 11 exact required names among the top-level members (independent token walk), consistency rules, re-encodes to a fixed point; constructed-to-fail texts must be refused. Non-trivial: single-mutation texts; distinct by text hash.",
+		Rule: "texts: 20% valid-by-construction (shuffled members, extra members, whitespace; must decode to the members' values), 50% encoder-shaped text with one required member deleted (also with its exact name still present as a string value, principal or nested key) / case-renamed / duplicated (same, conflicting, case variant) / retyped, 10% inconsistent-or-unsupported attribute sets, 10% other JSON values, 10% arbitrary bytes. Oracle on acceptance: version supported, all 11 exact required names among the top-level members (independent token walk), consistency rules, re-encodes to a fixed point; constructed-to-fail texts must be refused. Non-trivial: single-mutation texts; distinct by text hash.",
 		Gen:  genText, Exec: execText,
 	})
 }
